@@ -110,7 +110,7 @@ func genC05(rt *rapid.T) C05Case {
 		return op
 	})
 	minLen := rapid.SampledFrom([]int{1, 4, 12}).Draw(rt, "minlen")
-	c.Ops = rapid.SliceOfN(opGen, minLen, 40).Draw(rt, "ops")
+	c.Ops = rapid.SliceOfN(opGen, minLen, tierN(40, 100)).Draw(rt, "ops")
 	return c
 }
 
